@@ -11,6 +11,7 @@ from .. import refmodel as R
 from .. import shapes as S
 
 PROPERTY = "C06"
+VIA_HISTORY_EVERY = 7      # every k-th shape case is also run on an object that reached its definition through edits
 EXPLORERS = ['E1', 'E2']
 RULE = ("E1: every clamped shape of the alphabet x direction x parameter (every interior knot, every span midpoint, 1/3) x "
         "insertion count r = 1..p-s, then removal of k = 1..r copies through operations.remove_knot, the object wrappers and "
